@@ -18,7 +18,7 @@ RUN_MODULE = "Spec.Glob Model.Redis Spec.RedisRef Run.C19"
 EXPLAIN = "explain"
 RULE = ("histories of 4-22 commands issued on a real cashews.backends.redis.Redis (suppress on / off, default pickling serializer) connected to the "
         "in-process server stand-in: set (plain / only-if-absent / only-if-present, with and without TTL), set_many, get, get_many, delete, delete_many, "
-        "exists, expire, get_expire, incr with and without TTL, set_lock, unlock (owner / foreign token), scan, delete_match, get_match ('*' patterns), "
+        "exists, expire, get_expire, incr with and without TTL, set_lock, unlock (owner / foreign token), is_locked (plain and with wait / step: the answer at the instant it returns and the time it took), scan, delete_match, get_match ('*' patterns), "
         "set_add (with / without TTL), set_remove, set_pop, get_bits, incr_bits (sizes 1-4, saturating), slice_incr, clear, get_keys_count, ping; virtual "
         "clock advances of 0-3 s in 1/8 s steps between commands (so TTLs lapse); the server is switched down / up at random positions - an outage shows as a redis ConnectionError, a redis TimeoutError, a bare OSError or asyncio.TimeoutError - (every "
         "position of short histories in the thorough tier); after every command the stand-in's whole keyspace is dumped. A tenth more histories drive one sliding window with one period at non-decreasing "
@@ -59,7 +59,11 @@ def _rand_cmd(rng):
     if r < 0.58: return ["get_expire", rng.choice(U)]
     if r < 0.68: return ["incr", rng.choice(["n", "m"]), rng.choice([1, 1, 2, 3, -1, -2, 0]), rng.choice([0, 0, 0.5, 1.0])]
     if r < 0.72: return ["set_lock", "La", rng.choice(["t1", "t2"]), rng.choice([0.5, 1.0])]
-    if r < 0.76: return ["unlock", "La", rng.choice(["t1", "t2"])]
+    if r < 0.76:
+        tok = rng.choice(["t1", "t2"])
+        if r >= 0.745:      # (same draws as an unlock: the random stream of the histories is unchanged)
+            return ["is_locked", "La", [None, 0.25, 0.5, 1.0][int(r * 1e4) % 4], [0.125, 0.25, 0.375][int(r * 1e5) % 3]]
+        return ["unlock", "La", tok]
     if r < 0.79: return ["scan", rng.choice(["*", "a*", "*a", "s*", "b", "*b*"]), rng.choice([100, 1, 2, 3])]
     if r < 0.82: return ["delete_match", rng.choice(["a*", "*b", "n", "s*", "*"])]
     if r < 0.85: return ["get_match", rng.choice(["*", "a*", "*b", "n*", "m"]), rng.choice([100, 1, 2, 3])]
@@ -97,6 +101,22 @@ def _window_case(rng):
     return {"kind": "history", "sup": True, "hist": hist}
 
 
+def _lock_cases():
+    """take a lock, let part of its ttl pass, ask is_locked - plain, or waiting with a wait that ends before, at and after the
+    lock's deadline and a step that does or does not divide the wait; then release or overstay and ask again (no random draws)"""
+    out = []
+    for ttl in (0.5, 1.0):
+        for adv in (0, 2, 4):
+            for wait in (None, 0.25, 0.5, 1.0):
+                for step in (0.125, 0.25, 0.375):
+                    if wait is None and step != 0.125: continue
+                    hist = [[0, False, ["set_lock", "La", "t1", ttl]], [adv, False, ["is_locked", "La", wait, step]],
+                            [0, False, ["set_lock", "La", "t2", 0.5]], [1, False, ["is_locked", "La", wait, step]],
+                            [0, False, ["unlock", "La", "t2"]], [0, False, ["is_locked", "La", wait, step]]]
+                    out.append({"kind": "history", "sup": (adv + int(ttl * 2)) % 3 != 0, "hist": hist})
+    return out
+
+
 def _bits_case(rng):
     """one bit-field key driven with one field width: increments / decrements of several fields, then reads of those and neighbouring fields"""
     size = rng.choice([2, 3, 4, 2, 4, 1])
@@ -118,6 +138,7 @@ def gen_cases(rng, tier):
     n = 500 if tier == "quick" else 6000
     cases = [_rand_case(rng) for _ in range(n)] + [_window_case(rng) for _ in range(n // 10)]
     cases += [_bits_case(rng) for _ in range(n // 12)]
+    cases += _lock_cases()
     for d in DECORATORS:
         for down_from in (0, 1, 2):
             cases.append({"kind": "decor", "decorator": d, "down_from": down_from, "calls": 4})
@@ -201,6 +222,14 @@ def _run_history(case):
                 elif op == "set_lock": r = ["bool", bool(await be.set_lock(c[1], c[2], c[3]))]
                 elif op == "unlock":
                     v = await be.unlock(c[1], c[2]); r = ["none"] if v is None else ["int", int(v)]
+                elif op == "is_locked":
+                    t0 = srv.now()
+                    v = bool(await (be.is_locked(c[1]) if c[2] is None else be.is_locked(c[1], wait=c[2], step=c[3])))
+                    rounds = 0 if c[2] is None else -(-int(c[2] * 1000) // int(c[3] * 1000))
+                    took = srv.now() - t0
+                    # True only once the whole wait is used up; False at a poll instant no later than that
+                    timely = took == rounds * int(c[3] * 1000) if v else (took <= rounds * int(c[3] * 1000) and took % int(c[3] * 1000) == 0)
+                    r = ["bool", v] if timely else ["other", f"is_locked answered {v} after {took} ms"]
                 elif op == "scan": r = ["keys", sorted([k async for k in be.scan(c[1], batch_size=c[2] if len(c) > 2 else 100)])]
                 elif op == "delete_match": r = ["unit" if (await be.delete_match(c[1])) is None else "odd"]
                 elif op == "get_match": r = ["pairs", sorted([[k, enc(v)] async for k, v in be.get_match(c[1], batch_size=c[2] if len(c) > 2 else 100) if k in STR_KEYS], key=lambda kv: kv[0])]   # reading a bit-field / lock key as a value is outside the property
@@ -355,6 +384,9 @@ def _cmd(c):
     if op == "incr": return C("CIncr", S(c[1]), Z(c[2]), Z(_px(c[3])))
     if op == "set_lock": return C("CSetLock", S(c[1]), C("VStr", S(c[2])), Z(_px(c[3])))
     if op == "unlock": return C("CUnlock", S(c[1]), C("VStr", S(c[2])))
+    # is_locked, plain or waiting, answers whether the key is alive at the instant it returns (the history carries the instant
+    # at which each command returned; nothing else touches the key during a wait, so Properties/C06.v: C06_is_locked_wait applies)
+    if op == "is_locked": return C("CExists", S(c[1]))
     if op == "scan": return C("CScan", S(c[1]))
     if op == "delete_match": return C("CDelMatch", S(c[1]))
     if op == "get_match": return C("CGetMatch", S(c[1]))
